@@ -42,7 +42,10 @@ type lockInfo struct {
 }
 
 // heldAt: is the mutex of f's receiver held at instruction `at`?
-func (li *lockInfo) heldAt(f *ssa.Function, at ssa.Instruction) bool {
+func (li *lockInfo) heldAt(f *ssa.Function, at ssa.Instruction) bool { return li.heldAtX(f, at, true) }
+
+// heldAtX: exclusive=true accepts only Lock (a shared RLock does not serialise writers or calls).
+func (li *lockInfo) heldAtX(f *ssa.Function, at ssa.Instruction, exclusive bool) bool {
 	if len(f.Params) == 0 {
 		return false
 	}
@@ -52,7 +55,7 @@ func (li *lockInfo) heldAt(f *ssa.Function, at ssa.Instruction) bool {
 			return false
 		}
 		n, base, ok := mutexCall(in, li.mu)
-		return ok && (n == "Lock" || n == "RLock") && stripChange(base) == ssa.Value(recv)
+		return ok && (n == "Lock" || (n == "RLock" && !exclusive)) && stripChange(base) == ssa.Value(recv)
 	}
 	isUnlock := func(in ssa.Instruction) bool {
 		if _, isDefer := in.(*ssa.Defer); isDefer {
